@@ -257,7 +257,16 @@ def run_history(text, opts, d, profile="debug", keep_snaps=False, timeout=120, e
     exp = open(ep).read().split("\n")
     allact = out.split("\n")
     hooks = [l for l in allact if l.startswith("hook:")]
-    act = [l for l in allact if not l.startswith("hook:")]
+    act = []
+    hooks_by_cmd = []          # hooks emitted while executing command i (printed before its result)
+    curh = []
+    for l in allact:
+        if l.startswith("hook:"):
+            curh.append(l)
+        else:
+            act.append(l)
+            hooks_by_cmd.append(curh)
+            curh = []
     if act and act[-1] == "":
         act.pop()
     diffs = []
@@ -281,7 +290,7 @@ def run_history(text, opts, d, profile="debug", keep_snaps=False, timeout=120, e
         if a.startswith("err:") or a.startswith("panic:"):
             nontrivial += 1
     res = dict(diffs=diffs, checks_bad=checks_bad, n=len(cmds), snaps=snaps, rc=rc, act=act, exp=exp, cmds=cmds,
-               hooks=hooks, nontrivial_results=nontrivial, dir=d, opts=opts)
+               hooks=hooks, hooks_by_cmd=hooks_by_cmd, nontrivial_results=nontrivial, dir=d, opts=opts)
     return res
 
 
@@ -488,3 +497,83 @@ def cursor_corr(res, pagesize):
             if m.rstrip() != a.rstrip():
                 res["checks_bad"].append((i, c + "   [cursor model vs library]", m[:200], a[:200]))
     return n
+
+
+# ----------------------------------------------------------------------------------------------
+# page-lifecycle acceptor + free-list replay (Coq, extracted) over the library's hook events
+# ----------------------------------------------------------------------------------------------
+def pl_events(res):
+    """translate the interleaved hook / command stream of one run into the event lines of `monitor pl`"""
+    cmds, act, hbc = res["cmds"], res["act"], res["hooks_by_cmd"]
+    snap_at = {i: f for (i, f, w) in res.get("snaps", [])}
+    ev = []
+    origin = []
+    writers = set()
+    cur_snap = None
+    for i, c in enumerate(cmds):
+        if i >= len(act):
+            break
+        w = c.split()
+        for h in (hbc[i] if i < len(hbc) else []):
+            _, name, nums, _hx = h.split(":", 3)
+            nums = nums.split(",") if nums else []
+            if name == "tx_begin":
+                wr, txid, nro = nums[0], nums[1], int(nums[2])
+                ro = nums[3:3 + nro]
+                dump = nums[3 + nro:]
+                ev.append("B %s %s %s | %s" % ("w" if wr == "1" else "r", txid, " ".join(ro), " ".join(dump)))
+            elif name == "alloc":
+                ev.append("A %s %s %s" % (nums[0], nums[1], nums[2]))
+            elif name == "free":
+                ev.append("F %s %s" % (nums[0], nums[1]))
+            elif name == "write_page":
+                ev.append("W %s %s" % (nums[0], nums[1]))
+            elif name == "publish":
+                ev.append("P %s %s %s %s | %s" % (nums[0], nums[1], nums[2], nums[3], " ".join(nums[4:])))
+            elif name == "tx_end_ro":
+                ev.append("E %s" % nums[0])
+            else:
+                continue
+            origin.append(i)
+        a = act[i]
+        if w[0] == "begin" and w[2] == "w" and a == "ok":
+            writers.add(w[1])
+        elif w[0] == "drop" and w[1] in writers:
+            writers.discard(w[1])
+            ev.append("X"); origin.append(i)
+        elif w[0] == "commit" and w[1] in writers:
+            writers.discard(w[1])
+            if a != "ok":
+                ev.append("X"); origin.append(i)
+            else:
+                cur_snap = None
+        elif w[0] == "snap":
+            cur_snap = snap_at.get(i)
+            if cur_snap:
+                ev.append("S %s" % cur_snap); origin.append(i)
+        elif w[0] == "reopen":
+            writers.clear()
+            if cur_snap is None:
+                break                      # no current image of the file: tracking stops here
+            ev.append("R %s" % cur_snap); origin.append(i)
+    return ev, origin
+
+
+def pl_corr(res, pagesize):
+    ev, origin = pl_events(res)
+    if not ev:
+        return 0
+    f = os.path.join(res["dir"], "pl.ev")
+    open(f, "w").write("\n".join(ev) + "\n")
+    rc, out = sh([MONITOR, "pl", str(pagesize), f], timeout=300)
+    lines = [l for l in out.split("\n") if l.strip()]
+    ok = lines and lines[-1].startswith("done")
+    rej = [l for l in lines if l.startswith("REJECT")]
+    for l in rej[:1]:
+        m = re.match(r"REJECT event=(\d+) (.*)", l)
+        k = int(m.group(1)) - 1 if m else 0
+        i = origin[k] if k < len(origin) else 0
+        res["checks_bad"].append((i, res["cmds"][i] + "   [page-lifecycle / free-list model vs library]", "accepted", (m.group(2) if m else l)[:300]))
+    if not ok and not rej:
+        res["checks_bad"].append((0, "pl", "done", "monitor pl failed: " + out[-300:]))
+    return len(ev)
